@@ -36,6 +36,13 @@ ASSUMPTIONS = [
 
 @st.composite
 def _case(draw, tier):
+    if prob(draw, 0.05) and draw(st.integers(0, 2)) == 0:
+        # NINE sibling containers (one node each): every combination of expanded / collapsed containers is a state of its own
+        topo = draw(gen.g1_nodes(9, 9, default_on_edge=0.0, allow_no_out=False))
+        for n in topo:
+            n["defaults"] = {}
+        nodes = [{"k": "graph", "name": f"s{i}", "graph": {"name": f"s{i}", "nodes": [dict(n)]}, "flat_inputs": list(n["params"]), "flat_outputs": list(n["outs"]), "renames": []} for i, n in enumerate(topo)]
+        return {"topo": topo, "nodes": draw(gen.permuted(nodes)), "depth": 1, "thin": False, "renamed": False, "mutex": None, "siblings": True, "trap": False, "many": True}
     # node names that START WITH a container's name (containers are sub0, sub1, ...) are legal and a trap for string matching
     topo = draw(gen.g1_nodes(3, 7, default_on_edge=0.0, prefix=draw(st.sampled_from(["n", "n", "n", "sub0_", "sub1"]))))
     for n in topo:
@@ -431,6 +438,7 @@ def _check_state(tag, nodes_list, edges_list, tree, deps, input_consumers, sep, 
             br, cx = _boundary(p, c, names, rc)
             flag(Violation("c20.missing_edge", f"[{tag}] {kind} dependency {p} -> {c} ({v!r}) is not drawn between visible representatives {rp} and {rc}",
                            dep=kind, mode="sep" if sep else "merged", shape=_shape(p, c, rp, rc), inner_collapsed="collapsed_inner" in _shape(p, c, rp, rc),
+                           producer_in_collapsed_inner=_shape(p, c, rp, rc).startswith("producer_collapsed_inner"),
                            folded=_folded(kind, p, c, deps), second_producer=_second_producer(p, v, ORDER[0]), boundary_renamed=br, consumer_expanded=cx))
         stats["deps_checked"] += 1
     # ---- completeness for graph inputs: every consumer of an input is linked to an INPUT node that lists it
@@ -623,7 +631,8 @@ def _check_mermaid(tag, src, depth, sep, tree, deps, input_consumers, value_alia
         if not ok:
             br, cx = _boundary(p, c, value_alias.get(v, {v}), rc)
             flag(Violation("c20.mermaid_missing_edge", f"[{tag}] {kind} dependency {p} -> {c} ({v!r}) is not drawn between {rp} and {rc}", dep=kind, mode="sep" if sep else "merged",
-                           shape=_shape(p, c, rp, rc), inner_collapsed="collapsed_inner" in _shape(p, c, rp, rc), folded=_folded(kind, p, c, deps), second_producer=_second_producer(p, v, ORDER[0]),
+                           shape=_shape(p, c, rp, rc), inner_collapsed="collapsed_inner" in _shape(p, c, rp, rc), producer_in_collapsed_inner=_shape(p, c, rp, rc).startswith("producer_collapsed_inner"),
+                           folded=_folded(kind, p, c, deps), second_producer=_second_producer(p, v, ORDER[0]),
                            boundary_renamed=br, consumer_expanded=cx))
         stats["deps_checked"] += 1
     # ---- graph inputs: every consumer of an input is linked to the input node (or input group) that lists it
@@ -790,6 +799,10 @@ def check_case(case, ev):
     containers = [p for p in tree if any(tree[q] == p for q in tree)]
     if len(nbs) < 2 * max(1, len(containers)) and containers:
         raise Violation("c20.too_few_states", f"{len(containers)} containers but only {len(nbs)} states: {sorted(nbs)}")
+    if case.get("many") and len(nbs) != 2 * 2 ** len(containers):
+        raise Violation("c20.too_few_states", f"{len(containers)} sibling containers have {2 ** len(containers)} expansion states x 2 output modes, but the diagram data holds {len(nbs)} states", many=True)
+    if case.get("many"):
+        labels.add("nine_sibling_containers_all_states")
     for key in sorted(nbs):
         sep = key.endswith("sep:1")
         _check_state(f"state {key}", nbs[key], ebs[key], tree, deps, input_consumers, sep, value_alias, stats)
